@@ -355,9 +355,9 @@ class Unit:
             if k > nloops:
                 raise GenError("lost anchor: %s has %d loops, contract names loop %d" % (fq, nloops, k))
 
-        def obl(kind, clause, hint=False):
+        def obl(kind, clause, hint=False, props=None):
             oid = "%s::%s::%s::%s" % (self.name, fq, kind, re.sub(r"\s+", " ", clause)[:160])
-            d.obligations.append({"id": oid, "fn": fq, "kind": kind, "hint": hint, "clause": re.sub(r"\s+", " ", clause), "props": d.props})
+            d.obligations.append({"id": oid, "fn": fq, "kind": kind, "hint": hint, "clause": re.sub(r"\s+", " ", clause), "props": props if props is not None else d.props})
             return oid
 
         def contract_lines(text, where, extra_false=False):
@@ -380,8 +380,14 @@ class Unit:
                 ls.append(Line("    " + kw, fn=d, kind=where + ":" + kw))
                 for c in clauses:
                     oid = None
+                    # a clause may carry its own property tags:  /*props=C06*/ r is None ==> ...
+                    cprops = None
+                    mp = re.match(r"/\*props=([A-Z0-9,]+)\*/\s*", c)
+                    if mp:
+                        cprops = [x for x in mp.group(1).split(",") if not d.dep] if not getattr(d, "dep", False) else []
+                        c = c[mp.end():]
                     if kw in ("ensures", "invariant", "invariant_except_break", "decreases") and not (extra_false and c == "false"):
-                        oid = obl(where + ":" + kw, c)
+                        oid = obl(where + ":" + kw, c, props=cprops)
                     for j, cl in enumerate((c + ",").split("\n")):
                         ls.append(Line("        " + cl.strip(), fn=d, kind=where + ":" + kw, clause=oid))
             return ls
